@@ -26,8 +26,71 @@ def long_reorg(binary, tier, seed, prop):
     return res, viol
 
 
+def startup_run(binary, tier, seed, only=None, kinds=("startup",)):
+    """Startup.tla: database.Init over every database an older release (or a killed start) may have left behind."""
+    import glob
+    last = len(glob.glob(os.path.join(c.REPO, "database", "migrations", "*.up.sql")))
+    d = c.sub("startup")
+    runs = []
+    path = os.path.join(d, "startup.jsonl")
+    if only is None:
+        consts = {"LastVer": last, "MaxKills": 2, "MaxStops": 1, "HdrIds": "{1, 2}"}
+        cfg = os.path.join(d, "props.cfg")
+        c.write_cfg(cfg, "Spec", consts, ["TypeOK", "AppliedFollowsVersion", "UpMeansReady", "Representable"], ["ContentConstant", "ComesUpOrDirty", "DirtyIsForGood"])
+        r = c.run_tlc("Startup", cfg, workers=4)
+        c.tlc_must_pass(r, "Startup")
+        runs.append(r)
+        cfg = os.path.join(d, "gen.cfg")
+        gc = dict(consts, Emit='"paths"')
+        raw = os.path.join(d, "startup.out")
+        # no VIEW: hist is part of the state, so every path to a terminal state is emitted
+        c.write_cfg(cfg, "MSpec", gc, ["EmitInv"])
+        r = c.run_tlc("MC_Startup", cfg, workers=1, out_file=raw)
+        c.tlc_must_pass(r, "MC_Startup")
+        runs.append(r)
+        allp = os.path.join(d, "all.jsonl")
+        n = c.unquote_lines(raw, allp)
+        lines = sorted(set(open(allp).read().splitlines()))
+        rng = random.Random(seed)
+        want = 1500 if tier == "quick" else len(lines)
+        if len(lines) > want:
+            lines = rng.sample(lines, want)
+        with open(path, "w") as f:
+            f.write("\n".join(lines) + "\n")
+        c.log("  gen startup: %d behaviours (of %d emitted), tlc %d states" % (len(lines), n, r.distinct))
+    else:
+        with open(path, "w") as f:
+            f.write(json.dumps(only) + "\n")
+        lines = [json.dumps(only)]
+    out = os.path.join(d, "startup.res")
+    dbd = c.sub("startupdb")
+    p = c.run_harness(binary, {"VERIF_OP": "startup", "VERIF_IN": path, "VERIF_OUT": out, "VERIF_DB": os.path.join(dbd, "x.db"), "VERIF_LAST": last}, cwd=dbd)
+    if p.returncode != 0 or not os.path.exists(out):
+        raise c.Infra("startup harness failed: %s %s" % (p.stdout[-1500:], p.stderr[-1500:]))
+    res = json.load(open(out))
+    st = res.get("stats") or {}
+    if only is None and (st.get("start:started", 0) == 0 or st.get("start:refused", 0) == 0 or st.get("start:killed", 0) == 0):
+        raise c.Infra("vacuous startup run: %s" % st)
+    viol, seen = [], set()
+    other = sorted(set(m["kind"] for m in res.get("mismatches") or [] if m["kind"] not in kinds))
+    for m in res.get("mismatches") or []:
+        if m["beh"] in seen or m["kind"] not in kinds:
+            continue
+        seen.add(m["beh"])
+        viol.append(("start-up at step %d: expected %s, got %s" % (m["step"], m["exp"], m["got"]), {"family": "startup", "behaviour": json.loads(lines[m["beh"]])}))
+    c.log("  replay startup: %d behaviours %d starts, %d mismatches, %.1fs" % (res["behaviours"], res["steps"], len(res.get("mismatches") or []), res.get("wall_s", 0)))
+    cov = {"behaviours": res["behaviours"], "starts": res["steps"], "stats": st, "schema_versions": last, "other_kinds_differing": other,
+           "rule": "every clean database of schema version 0..%d holding headers / tokens / a webhook written under that schema x up to 2 killed starts at every "
+                   "point of the migrate-then-seed sequence (incl. the dirty states golang-migrate leaves) x a completed or refused start, enumerated by TLC from "
+                   "spec/Startup.tla; the file is prepared with the working tree's own migration files and the real database.Init is run on it" % last}
+    return runs, viol, cov
+
+
 def c05(tier, seed, replay_path=None):
     binary = fc.build()
+    if replay_path and json.load(open(replay_path))["case"].get("family") == "startup":
+        runs, viol, cov = startup_run(binary, tier, seed, only=json.load(open(replay_path))["case"]["behaviour"])
+        return {"violations": viol, "known": [], "notes": [], "level": "fault_enumeration", "coverage": {"states": 1, "transitions": 1, "traces_validated_against_impl": 1, "samples": ["startup"]}, "assumptions": []}
     if replay_path and json.load(open(replay_path))["case"].get("family") == "longreorg":
         res, viol = long_reorg(binary, tier, json.load(open(replay_path)).get("seed", seed), "C05")
         return {"violations": viol, "known": [], "notes": [], "level": "fault_enumeration", "coverage": {"states": 1, "transitions": 1, "traces_validated_against_impl": 1, "samples": ["long reorg"]}, "assumptions": []}
@@ -79,6 +142,13 @@ def c05(tier, seed, replay_path=None):
     lr, lviol = long_reorg(binary, tier, seed, "C05")
     cov["long_reorg"] = {k: x for k, x in lr.items() if k != "mismatch"}
     v["violations"] += lviol
+    # restart on ANY database a previous release or a killed start may have left (Startup.tla)
+    sruns, sviol, scov = startup_run(binary, tier, seed)
+    cov["startup"] = scov
+    cov["states"] += sum(r.distinct for r in sruns)
+    cov["transitions"] += sum(r.generated for r in sruns)
+    cov["traces_validated_against_impl"] += scov["behaviours"]
+    v["violations"] += sviol
     v["assumptions"] = ASSUME + ["kill points are transaction boundaries (before each repository write); torn pages are SQLite's responsibility",
                                  "after a kill or a failed write the process restarts and peers redeliver everything in the original order (the property's protocol)"]
     return v
